@@ -2,6 +2,21 @@
 """Regenerates MANIFEST.json from the table below (kept valid at all times)."""
 import json
 CLAIMED = {
+ "C07": dict(text="Deductive proof, for all offsets/intervals/tick vectors/positions/modes, that index_of / range_indices / position_at / "
+                  "tick_at / axis of the three dimension descriptors return the order-theoretic answers (last sample <= / < p, first >= p; "
+                  "IndexError exactly when none), in scaled coordinates with numpy's isclose band as a don't-care zone, plus SMT lemmas "
+                  "linking scaled coordinates to sample positions.",
+             note="Trusted: floats as reals; numpy isclose/round/floor/where/searchsorted specs; ticks/labels getters summarised "
+                  "(verified under C05); z3/cvc5; pyvc encoding.", ref="7 C07"),
+ "C09": dict(text="Deductive proof of scalable/scaling against the prefix-ratio^power specification (all inputs), exhaustive proof of "
+                  "split/is_atomic on every prefix x unit x power entry of the SI tables read from the AST, regex-inclusion and "
+                  "composition lemmas; sanitizer idempotence only as a labelled bounded stand-in.",
+             note="Trusted: Python re = leftmost-first backtracking for the regex subset (pyvc/regex.py), z3 regex theory, floats as "
+                  "reals, int(str) spec; split's functional summary (determinism).", ref="7 C09"),
+ "C11": dict(text="Deductive proof over all version triples / modes / ids of can_read, can_write, map_file_mode and the _check_header "
+                  "decision table (format tag, write = exact version, read = same major & minor not newer, id required from 1.2.0).",
+             note="Trusted: HDF5 enforces ACC_RDONLY and TRUNC semantics (byte-level clauses of C11 are assumptions); uuid.UUID spec; "
+                  "attribute getters over the abstract store.", ref="7 C11"),
  "C06": dict(text="Deductive proof (unbounded rank/extent/index) that DataView index transformation, ellipsis expansion and window "
                   "bookkeeping in nixio/data_view.py implement NumPy basic indexing on a window; obligations generated from the real "
                   "ASTs on every run and discharged by z3/cvc5.",
